@@ -76,7 +76,10 @@ func write(md *memoryDatabase, buf []byte, memTimeSeries uint32, fieldIndex uint
 		value = fieldType.AggType().Aggregate(oldValue, value)
 	} else {
 		// new data for time slot
-		buf[endOffset] = byte(delta)
+		// NOTE: end offset only moves forward, maybe write an earlier slot(out of order) in current time window
+		if delta > getEnd(buf) {
+			buf[endOffset] = byte(delta)
+		}
 		buf[markOffset+markIdx] |= flagIdx // mark value exist
 	}
 	// finally, write value into the body of current write buffer
